@@ -86,17 +86,19 @@ Theorem C14_then_completes : forall X bodies s0 t1 p1 rest1 tr rest2 l1 t m l2,
 Proof. exact then_completes_f. Qed.
 Print Assumptions C14_then_completes.
 
-(* expiry: the end of the first read later than 60 s after packet 1 removes the still incomplete
-   transfer without re-requesting it; whatever arrives afterwards that is not a new packet 1 of X -
-   all the outstanding packets included - delivers nothing for X and re-requests nothing.
-   (The check runs at the END of a read: a read that itself brings the last packets is processed
-   first.  Within 60 s the transfer survives: C05_exact / C14_then_completes.) *)
-Theorem C14_expiry : forall X bodies s0 t1 p1 rest now later,
+(* expiry: a transfer still incomplete 60 s after it began is discarded and NEVER delivered.  After
+   the within-60-s history `rest` that leaves packets missing, take ANY continuation whose first event
+   is later than 60 s after packet 1 - the end of a read, or a message: the outstanding packets
+   themselves included (parse drops stale transfers before it processes the messages of a read, fix
+   4f00aa1) - and that does not start the transfer anew (no new packet 1 of X): nothing is delivered
+   for X, nothing is re-requested for X from that event on, and the transfer is gone.  (Within 60 s
+   the transfer survives: C05_exact / C14_then_completes.) *)
+Theorem C14_expiry : forall X bodies s0 t1 p1 rest now e later,
   bodies <> [] -> Forall nonempty bodies -> wf s0 ->
   good_pkt X (len bodies) bodies p1 -> m_no p1 = 1 -> Forall (ok_after X bodies t1) rest ->
   ~ covers (len bodies) (numbers X (len bodies) ((t1, EvMsg p1) :: rest)) -> t1 + 60000 < now ->
-  Forall (fun te => no_start X (snd te)) later ->
-  let evs := ((t1, EvMsg p1) :: rest) ++ (now, EvEnd) :: later in
+  Forall (fun te => no_start X (snd te)) ((now, e) :: later) ->
+  let evs := ((t1, EvMsg p1) :: rest) ++ (now, e) :: later in
   let outs := snd (run s0 evs) in
   completions X outs = [] /\
   rereqs_from (S (length rest)) X (skipn (S (length rest)) outs) = [] /\
@@ -169,6 +171,14 @@ Proof. vm_compute. split; reflexivity. Qed.
 Example C14_example_expiry :
   let evs := [(0, EvMsg (ex_pkt 2049 3 1 7 [1])); (0, EvEnd); (60001, EvEnd);
               (60002, EvMsg (ex_pkt 2049 3 2 8 [2])); (60002, EvMsg (ex_pkt 2049 3 3 9 [3])); (60002, EvEnd)] in
+  completions 2049 (snd (run [] evs)) = [] /\ rereqs 2049 (snd (run [] evs)) = [] /\ fst (run [] evs) = [].
+Proof. vm_compute. repeat split; reflexivity. Qed.
+
+(* the demonstration that used to deliver (before fix 4f00aa1): packets 1 and 2 of 3, nothing for
+   61 s, then packet 3 as the FIRST data: not delivered, the transfer is dropped *)
+Example C14_example_late_packet :
+  let evs := [(0, EvMsg (ex_pkt 2049 3 1 7 [1])); (0, EvEnd); (0, EvMsg (ex_pkt 2049 3 2 8 [2])); (0, EvEnd);
+              (61000, EvMsg (ex_pkt 2049 3 3 9 [3])); (61000, EvEnd)] in
   completions 2049 (snd (run [] evs)) = [] /\ rereqs 2049 (snd (run [] evs)) = [] /\ fst (run [] evs) = [].
 Proof. vm_compute. repeat split; reflexivity. Qed.
 
